@@ -23,6 +23,58 @@ def usable(rec):
     return d['valid'] and rec['dom'] and all(q[1] != 0 for q in (d['result'], d['err'], d['epsc']))
 
 
+def dea3_exact(e0, e1, e2):
+    """spec/Wynn.tla Dea3 with its general clauses, evaluated in exact rational arithmetic on the float inputs: a difference
+    counts as converged iff |d| <= max|e| * EPS (EPS = 2^-52 as a rational), irregular iff |sss * e1| <= 1e-4.
+    Returns (branch, exact result, exact |sss * e1|)"""
+    from fractions import Fraction as Fr
+    f0, f1, f2 = Fr(float(e0)), Fr(float(e1)), Fr(float(e2))
+    d1, d2 = f1 - f0, f2 - f1
+    eps = Fr(1, 2 ** 52)
+    tol1, tol2 = max(abs(f1), abs(f0)) * eps, max(abs(f2), abs(f1)) * eps
+    if abs(d1) <= tol1 or abs(d2) <= tol2:
+        return 'converged', f2, None
+    sss = 1 / d2 - 1 / d1
+    g = abs(sss * f1)
+    if g <= Fr(1, 10000):
+        return 'irregular', f2, g
+    return 'extrapolated', f1 + 1 / sss, g
+
+
+def guard_region(rep, dea3, rnd, tier):
+    """float triples that SAMPLE the guards: |sss*e1| spread over 1e-7 .. 1e-2 around the 1e-4 threshold, and neighbours
+    that differ by 1 .. 6 ulp around the convergence tolerance (both absent from the exact grid of MC_Dea3)"""
+    n = 0
+    for i in range(400 if tier == 'quick' else 4000):
+        e1 = rnd.choice([1.0, -3.0, 0.37, 250.0, -1e-6])
+        if i % 2 == 0:
+            t = 10.0 ** rnd.uniform(-7, -2)
+            d1 = rnd.choice([0.5, -0.25, 1e-3]) * abs(e1)
+            sss = t / e1
+            d2 = 1.0 / (sss + 1.0 / d1)
+            tri = (e1 - d1, e1, e1 + d2)
+        else:
+            k = rnd.choice([1, 2, 3, 4, 6])
+            a = e1
+            tri = [(a, a * (1 + k * EPS), 3.0 * a + 1.0), (3.0 * a + 1.0, a, a * (1 + k * EPS)), (a * (1 - k * EPS), a, 2.0 * a)][i % 3]
+        tri = tuple(np.float64(v) for v in tri)
+        branch, want, g = dea3_exact(*tri)
+        if g is not None and abs(float(g) - 1e-4) < 2e-6:
+            continue                               # the threshold itself is decided by rounding in sss*e1
+        with np.errstate(all='ignore'):
+            got, err = dea3(*tri)
+        n += 1
+        got = float(np.ravel(got)[0])
+        if branch != 'extrapolated':
+            ok = got == float(tri[2])
+        else:
+            ok = abs(got - float(want)) <= 1e-6 * max(abs(float(want)), abs(float(tri[1])))
+        if not ok:
+            rep.violation('guard-region:%s' % branch, dict(e=[float(v) for v in tri], branch=branch, got=got, want=float(want), guard=None if g is None else float(g)),
+                          'dea3(%r): the specification takes the %s branch (|sss*e1| = %s) and gives %r, the code returns %r' % ([float(v) for v in tri], branch, None if g is None else '%.3g' % float(g), float(want), got))
+    return n
+
+
 def first_call_float32(_):
     """in a process that has not used the library yet: a float32 call first, then float64 geometric triples with small
     transients - what an earlier call looked like must not change the machine constants a later call works with"""
@@ -121,6 +173,7 @@ def run(tier, rep):
             rep.violation('iterated', dict(inputs=[float(v[0]) for v in rs], got=float(r4[0])), 'dea3 applied to three of its own earlier results %s returns %r (limit 2)' % ([float(v[0]) for v in rs], float(r4[0])))
     except Exception as ex:
         rep.violation('raises', dict(), 'iterated dea3 raised %r' % (ex,))
+    nguard = guard_region(rep, dea3, random.Random(seed + 3), tier)
     # arrays: all cases at once, each with its own power-of-two scale, several shapes, symmetric flag
     rnd = random.Random(seed)
     narr = 0
@@ -178,7 +231,7 @@ def run(tier, rep):
             rep.violation('symmetric:short', dict(shape=shape, got=[list(np.shape(gs)), list(np.shape(es))]),
                           'symmetric=True on inputs of shape %s returns shapes %s / %s: not the plain result with one element trimmed from each output' % (shape, np.shape(gs), np.shape(es)))
     states, trans, per = vlib.merge_tlc([res])
-    cov = dict(states=states, transitions=trans, traces_validated_against_impl=nscalar + narr, scalar_replays=nscalar, array_replays=narr,
+    cov = dict(states=states, transitions=trans, traces_validated_against_impl=nscalar + narr, guard_region_triples=nguard, scalar_replays=nscalar, array_replays=narr,
                samples=[cases[3], cases[-3]], evaluations=nscalar + narr, skipped_outside_exact_domain=skipped,
                distinct_nontrivial=len([r for r in cases if not r['d3']['conv']]), exhaustive=True, scales=scales,
                rule='every triple of a 9-value grid plus geometric triples L + a q^j; non-trivial = not in the converged/guard branch', tlc=per)
